@@ -480,4 +480,25 @@ def compactCrt (P : PrimeSet) (x : List Nat) : Outcome Int :=
       .ok (if v ≥ halfQ then w128 (w128 (v : Int) - w128 (tq : Int)) else w128 (v : Int))
   | _ => .panic "bounds"
 
+/-! ### the one-limb product pipeline at ring degree `n` around an abstract transform
+
+`svp_prepare` (`b_from_znx64`, forward transform, `c_from_b`), `vec_znx_dft_apply`
+(`b_from_znx64`, forward transform), `svp_apply_dft_to_dft` (`bbc` with `ell = 1` per slot),
+`vec_znx_idft_apply` (inverse transform, `b_to_znx128`).  The butterfly networks `ntt_ref` /
+`intt_ref` are *parameters* here (`ntt k`, `intt k` act on the lane of prime `k`): they are not
+modelled; the pipeline theorem assumes `NttIsRingIso` for them. -/
+
+/-- lane of prime `q`: prepared operand `p`, lazy operand `x` -/
+def laneK (q h : Nat) (ntt intt : List Nat → List Nat) (p x : Poly) : List Nat :=
+  let fp := ntt (p.map (fun c => bFromU64K q (asU64 c)))
+  let fx := ntt (x.map (fun c => bFromU64K q (asU64 c)))
+  intt (List.zipWith (fun a b => slotProductK q h a b) fx fp)
+
+def nttPipeline (P : PrimeSet) (h : Nat) (ntt intt : Nat → List Nat → List Nat) (p x : Poly) : List Int :=
+  let l0 := laneK P.q0 h (ntt 0) (intt 0) p x
+  let l1 := laneK P.q1 h (ntt 1) (intt 1) p x
+  let l2 := laneK P.q2 h (ntt 2) (intt 2) p x
+  let l3 := laneK P.q3 h (ntt 3) (intt 3) p x
+  (List.range x.length).map (fun i => bToZnx128Core P (l0.getD i 0) (l1.getD i 0) (l2.getD i 0) (l3.getD i 0))
+
 end Ntt120
